@@ -75,6 +75,11 @@ type RangeIter struct {
 type ChanData struct {
 	capacity int
 	q        []Value
+	// runtime timer (time.NewTimer): the channel C of a timer that delivers one value at
+	// `deadline` (wall-clock ns) unless stopped before (Go >= 1.23: no stale value after Stop)
+	timer    bool
+	deadline *Term
+	stopped  bool
 }
 
 // UnixNano of the zero time.Time as computed by Go (the value is formally undefined).
